@@ -186,6 +186,8 @@ class Inst(Ty):
         for k, t in self.fields.items():
             v = t.make(interp, '%s.%s' % (name, k)) if isinstance(t, Ty) else t
             object.__setattr__(obj, k, v)
+        if hasattr(interp, 'note_new_object'):
+            interp.note_new_object(obj)
         if self.invariant is not None:
             interp.st.assume(interp.truth(interp.call(self.invariant, [obj], {})))
         return obj
@@ -434,6 +436,8 @@ def new_opaque(interp, iface, name, index=(), preset=None):
     st = interp.st
     uid = st.fresh_name(name) if not index else name
     o = Opaque(iface, uid)
+    if hasattr(interp, 'note_new_object'):
+        interp.note_new_object(o)
     o.__dict__['_pv_index'] = tuple(index)
     if preset:
         o._pv_attrs.update(preset)
